@@ -165,9 +165,9 @@ pub fn content(out: &str) -> Result<()> {
         let ids = index.get_inscription_ids_by_sat(sat)?;
         if let Some(pos) = ids.iter().position(|x| *x == id) {
           requests.push(("sat_at_pos".into(), label.clone(), format!("/r/sat/{}/at/{pos}/content", sat.0)));
-          if pos + 1 == ids.len() {
-            requests.push(("sat_at_neg".into(), label.clone(), format!("/r/sat/{}/at/-1/content", sat.0)));
-          }
+          // the same inscription counted back from the newest one on the sat (-1, -2, ...)
+          let neg = pos as i64 - ids.len() as i64;
+          requests.push(("sat_at_neg".into(), label.clone(), format!("/r/sat/{}/at/{neg}/content", sat.0)));
         }
       }
     }
@@ -266,6 +266,18 @@ fn explorer_scenario() -> Scenario {
     }
     steps.push(Step::Block(BlockSpec { id: format!("jd{b}"), txs, cb: vec![OutSpec { v: SUBSIDY_UNITS, t: "tr".into(), s: 0 }] }));
   }
+  // an inscription whose sat is paid as fee and not claimed by the coinbase: lost
+  steps.push(Step::Block(BlockSpec {
+    id: "je0".into(),
+    txs: vec![TxSpec {
+      label: "jl".into(),
+      ins: vec!["cjb2:0".into()],
+      outs: vec![OutSpec { v: 0, t: "opret".into(), s: 5 }],
+      envs: vec![EnvSpec { label: "JL".into(), input: 0, ..Default::default() }],
+      ..Default::default()
+    }],
+    cb: vec![OutSpec { v: SUBSIDY_UNITS, t: "tr".into(), s: 0 }],
+  }));
   steps.push(Step::Update);
   Scenario { name: "explorer".into(), chain: "regtest".into(), flags: vec!["sats".into(), "runes".into(), "addresses".into()], commit_interval: None, savepoint_interval: None, max_savepoints: None, steps }
 }
